@@ -883,12 +883,17 @@ func runNestedCount(c *core.Ctx) {
 	// Close: stops every nested ctx and receives once per ctx
 	ci := closeM.Pkg.Info
 	stops, recvs := false, false
+	overCtxs := func(x ast.Expr) bool { return an.SelectedField(ci, x) == ctxs }
 	ast.Inspect(closeM.Body(), func(m ast.Node) bool {
-		rs, ok := m.(*ast.RangeStmt)
-		if !ok || an.SelectedField(ci, rs.X) != ctxs {
+		st, isStmt := m.(ast.Stmt)
+		if !isStmt {
 			return true
 		}
-		ast.Inspect(rs.Body, func(k ast.Node) bool {
+		loopBody, _, ok := perElementLoop(ci, st, overCtxs)
+		if !ok {
+			return true
+		}
+		ast.Inspect(loopBody, func(k ast.Node) bool {
 			switch x := k.(type) {
 			case *ast.CallExpr:
 				if an.IsMethodNamed(an.CalleeFunc(ci, x), an.PkgDistsys, "MPCalContext", "Stop") {
@@ -912,12 +917,16 @@ func runNestedCount(c *core.Ctx) {
 	cg := e.Graph(closeM)
 	var stopX, recvX ast.Node
 	ast.Inspect(closeM.Body(), func(m ast.Node) bool {
-		rs, ok := m.(*ast.RangeStmt)
-		if !ok || an.SelectedField(ci, rs.X) != ctxs {
+		st, isStmt := m.(ast.Stmt)
+		if !isStmt {
+			return true
+		}
+		loopBody, loopX, ok := perElementLoop(ci, st, overCtxs)
+		if !ok {
 			return true
 		}
 		isStop, isRecv := false, false
-		ast.Inspect(rs.Body, func(k ast.Node) bool {
+		ast.Inspect(loopBody, func(k ast.Node) bool {
 			switch x := k.(type) {
 			case *ast.SelectorExpr:
 				if sel, ok := ci.Selections[x]; ok && sel.Kind() == types.MethodVal && an.IsMethodNamed(sel.Obj().(*types.Func), an.PkgDistsys, "MPCalContext", "Stop") {
@@ -931,21 +940,24 @@ func runNestedCount(c *core.Ctx) {
 			return true
 		})
 		if isStop && stopX == nil {
-			stopX = rs.X
+			stopX = loopX
 		}
 		if isRecv && recvX == nil {
-			recvX = rs.X
+			recvX = loopX
 		}
 		return true
 	})
 	if stopX != nil && recvX != nil {
-		okS, _ := cg.MustPass(nil, func(a ast.Node) bool { return a == stopX }, nil)
-		okR, _ := cg.MustPass(nil, func(a ast.Node) bool { return a == recvX }, nil)
+		holds := func(x ast.Node) func(ast.Node) bool {
+			return func(a ast.Node) bool { return containsOutsideLiterals(a, x) }
+		}
+		okS, _ := cg.MustPass(nil, holds(stopX), nil)
+		okR, _ := cg.MustPass(nil, holds(recvX), nil)
 		c.Check(okS, "nestedArchetype.Close:stops-unconditionally", stopX.Pos(), "every path of Close runs the loop that requests Stop for each nested context",
 			"Close can skip the loop that stops the nested contexts: a nested archetype that is still running is never stopped and Close waits for its report forever")
 		c.Check(okR, "nestedArchetype.Close:collects-unconditionally", recvX.Pos(), "every path of Close collects the exit reports",
 			"Close can return without collecting the exit reports of the nested contexts: it returns while nested archetypes still run")
-		c.Check(cg.Dominates(stopX, recvX), "nestedArchetype.Close:stop-before-collect", recvX.Pos(), "the stop requests precede the collection of reports",
+		c.Check(okS && okR && cg.Dominates(stopX, recvX), "nestedArchetype.Close:stop-before-collect", recvX.Pos(), "the stop requests precede the collection of reports",
 			"Close waits for the exit reports before requesting the nested contexts to stop: it would wait forever")
 	}
 	c.Check(stops, "nestedArchetype.Close:stops-every-context", closeM.Pos(), "Stop is requested for every nested context", "Close does not stop every nested context")
